@@ -8,7 +8,9 @@
 From QV Require Import Spec.MsgWriterS.
 From QV Require Import Base.ListX Model.MsgWriter Proofs.MsgWriterP Proofs.MsgWriterScanP
      Proofs.MsgWriterNameP Proofs.MsgWriterTabP Proofs.MsgWriterTopP Proofs.MsgWriterInvP
-     Proofs.MsgWriterClosP Proofs.MsgWriterNameSP Proofs.MsgWriterOpP Proofs.MsgWriterStepP.
+     Proofs.MsgWriterClosP Proofs.MsgWriterNameSP Proofs.MsgWriterLayP Proofs.MsgWriterOpP
+     Proofs.MsgWriterStepP Proofs.MsgWriterMsgP.
+From QV Require Import Spec.MsgWriterAbsS.
 
 (* What is written for an owner name is either the plain wire form, or k leading labels and
    ONE pointer; the pointer leads strictly before the first octet of this name, to a label
@@ -131,6 +133,36 @@ Theorem c13_message_pointers_valid_partial : forall buf limit w0 ops, writer_new
     end.
 Proof. exact run_writer_ok. Qed.
 
+(* MESSAGE LEVEL.  The finished message of ANY operation sequence obeying the hint contract has a
+   layout [yF] (questions, then records incl. the OPT/TSIG pseudo-records) tiling [12, len) whose name
+   chunks stand, in order, for the names of the abstract message of the succeeded operations; by
+   [PLay] / [chunk_ok] / [shape_at] every chunk is the plain wire form, or k < |name| labels followed
+   by ONE pointer pp with pp strictly before the chunk and pp a member of LF, and LF is EXACTLY the set
+   of label starts (root octets included) of the chunks of the layout ([p_tight]); chunks of
+   uncompressible RDATA names (SRV, Chaosnet A; [parts_at]: comp = false -> plain) carry no pointer, and
+   RDATA without name components is raw octets ([parts_shape] against the regenerated component table,
+   which has no compressible name outside RFC 1035's types: c13_no_compressible_component). *)
+Theorem c13_message_pointers_valid : forall buf limit w0 ops, writer_new buf limit = Ok w0 ->
+  run_contract (mkD w0 []) g0 ops ->
+  exists rr, run_writer buf limit ops = Ok rr /\
+    match rr_final rr with
+    | Some (len, b) =>
+      exists d wF LF yF,
+        run (mkD w0 []) ops = Ok (d, rr_outcomes rr, true) /\
+        (forall t, w_tsig (d_w d) = Some t -> tsig_wf t) /\
+        len = w_cursor wF /\ b = w_buf wF /\ NInv wF (length b) LF /\
+        PLay b LF yF (w_rr_start (d_w d)) len /\
+        Forall2 q_desc (y_qs yF) (am_qs (areplay am0 ops (rr_outcomes rr))) /\
+        Forall2 rr_desc2 (y_rrs yF)
+          (am_an (areplay am0 ops (rr_outcomes rr)) ++ am_ns (areplay am0 ops (rr_outcomes rr)) ++
+           am_ar (areplay am0 ops (rr_outcomes rr)) ++ pseudo (d_w d)) /\
+        FLay (d_w d) (mkLay (y_qs yF) (firstn (length (y_rrs yF) - length (pseudo (d_w d))) (y_rrs yF)))
+             (areplay am0 ops (rr_outcomes rr)) /\
+        slice b 4 12 = be16 (w_qd (d_w d)) ++ be16 (w_an (d_w d)) ++ be16 (w_ns (d_w d)) ++ be16 (w_ar (d_w d))
+    | None => True
+    end.
+Proof. exact run_writer_layout. Qed.
+
 (* Non-vacuity: after a question for "a." in a concrete buffer the hypotheses hold
    (QNAME anchor at offset 12), and writing "www.a." emits "www" + a pointer to offset 12. *)
 Definition ex_w : writer :=
@@ -187,3 +219,4 @@ Print Assumptions c13_owner_pointer_into_label_starts.
 Print Assumptions c13_unhinted_pointer_into_label_starts.
 Print Assumptions c13_anchor_invariant_all_ops.
 Print Assumptions c13_message_pointers_valid_partial.
+Print Assumptions c13_message_pointers_valid.
